@@ -180,7 +180,7 @@ theorem mem_dedupInts (l : List Int) (a : Int) : a ∈ dedupInts l ↔ a ∈ l :
 
 /-! ### `mapM` in `Except` -/
 
-theorem mapM_ok {α β : Type} (f : α → Except Err β) (g : α → β) :
+theorem dddmp_mapM_ok {α β : Type} (f : α → Except Err β) (g : α → β) :
     ∀ l : List α, (∀ x ∈ l, f x = .ok (g x)) → l.mapM f = .ok (l.map g) := by
   intro l
   induction l with
